@@ -519,7 +519,7 @@ fn ref_range(limits: Option<(Option<Val>, Option<Val>)>, proto: &[Rec], name: &s
 
 /// documented normalisation: (v - min) / (max - min) clamped to [0,1]; degenerate range -> 0.
 /// Returns the admissible interval for the f32 result (computed in f64 with slack for rounding).
-fn ref_norm(v: f64, range: Option<(f64, f64)>) -> (f64, f64) {
+pub fn ref_norm(v: f64, range: Option<(f64, f64)>) -> (f64, f64) {
     let Some((min, max)) = range else { return (0.0, 0.0) };
     if !(min < max) || !(min.is_finite() && max.is_finite()) {
         return (0.0, 0.0);
